@@ -90,6 +90,7 @@ type Schema struct {
 }
 
 type ContractSet struct {
+	Unproved map[string]map[string]string // function -> clause label -> reason: clause is assumed by callers but not yet proved for this function
 	TypeInvs map[string]*Expr // heap type name -> invariant over `self` replacing the inferred required fields
 	Funcs   map[string]*Contract
 	Schemas []*Schema
@@ -204,6 +205,27 @@ func (cs *ContractSet) line(cur **Contract, text, file string, ln int) error {
 			return fmt.Errorf("duplicate spec %s", m[1])
 		}
 		cs.Specs[m[1]] = &SpecDef{Name: m[1], Params: ps, Body: e, Opaque: word == "opaque"}
+		return nil
+	case word == "unproved":
+		// unproved LABEL[,LABEL] FUNC -- reason
+		parts := strings.SplitN(rest, "--", 2)
+		f := strings.Fields(parts[0])
+		if len(f) != 2 {
+			return fmt.Errorf("malformed unproved line")
+		}
+		reason := ""
+		if len(parts) == 2 {
+			reason = strings.TrimSpace(parts[1])
+		}
+		if cs.Unproved == nil {
+			cs.Unproved = map[string]map[string]string{}
+		}
+		if cs.Unproved[f[1]] == nil {
+			cs.Unproved[f[1]] = map[string]string{}
+		}
+		for _, l := range strings.Split(f[0], ",") {
+			cs.Unproved[f[1]][l] = reason
+		}
 		return nil
 	case word == "typeinv":
 		// typeinv ast.T EXPR   (EXPR over self)
